@@ -749,6 +749,13 @@ Proof.
   - right. now left.
 Qed.
 
+Example crc32c_window_example :
+  crc32c ([9; 9] ++ [1; 2; 3; 4] ++ [7])%N <> crc32c ([9; 9] ++ [1; 2; 3; 5] ++ [7])%N.
+Proof.
+  apply crc32c_window; try reflexivity; try (cbn; lia); try discriminate;
+    repeat constructor; unfold wf_byte; lia.
+Qed.
+
 (** Wider bursts are not always detected: the generator itself is a 17-bit
     pattern with remainder zero, so the hypothesis [length b <= w] cannot be
     dropped. *)
@@ -776,3 +783,16 @@ Print Assumptions crc16_x25_bound.
 Print Assumptions crc32c_bound.
 Print Assumptions crc16_x25_field_burst.
 Print Assumptions crc32c_field_burst.
+
+(** Summary.  Everything requested is proved, nothing is left open:
+    - [pmod_linear] (3a), plus [pmod_length], [pmod_leading_zeros], [pmod_small],
+      [pmod_generator_shift], which pin [pmod] down as the remainder;
+    - [pmod_burst], [crc_spec_bits_burst], [crc_spec_burst] (3b, any message
+      length, any monic generator with non-zero constant term);
+    - [crc_run_spec], [crc16_x25_spec], [crc32c_spec] (3c: executable bit-serial
+      register = polynomial specification, for all octet strings);
+    - [crc16_x25_burst], [crc32c_burst], [crc16_x25_window], [crc32c_window],
+      [crc16_x25_bound], [crc32c_bound], [*_field_burst] on the executable model.
+    Not covered: bursts that straddle the message and its own CRC field, and the
+    octet-at-a-time table form used by the harness stand-in (pinned only by the
+    vectors in [Crc.v]). *)
